@@ -24,7 +24,7 @@ segments that stay inside it).  Sampled by the oracle `o_burn.k3_lipschitz`.
 import EPV.Gen.K3d2
 import EPV.Gen.K3d3
 import EPV.Spec.Burn
-import EPV.Lemmas.Burn
+import EPV.Lemmas.BurnModels
 import EPV.Tactics
 
 set_option linter.all false
@@ -33,85 +33,8 @@ open EPV EPV.Gen EPV.Spec.Burn EPV.Burn
 
 namespace EPV.C13
 
-theorem k3d2_leaves : K3d2.okLeaves = [4, 5] := rfl
-theorem k3d3_leaves : K3d3.okLeaves = [4, 5] := rfl
-
-noncomputable def K3d2.det (p : K3d2.P) : E2 := !₂[p.xd0, p.xd1]
-noncomputable def K3d3.det (p : K3d3.P) : E3 := !₂[p.xd0, p.xd1, p.xd2]
-
-@[simp] theorem K3d2.det_0 (p : K3d2.P) : (K3d2.det p) 0 = p.xd0 := by simp [K3d2.det]
-@[simp] theorem K3d2.det_1 (p : K3d2.P) : (K3d2.det p) 1 = p.xd1 := by simp [K3d2.det]
-@[simp] theorem K3d3.det_0 (p : K3d3.P) : (K3d3.det p) 0 = p.xd0 := by simp [K3d3.det]
-@[simp] theorem K3d3.det_1 (p : K3d3.P) : (K3d3.det p) 1 = p.xd1 := by simp [K3d3.det]
-@[simp] theorem K3d3.det_2 (p : K3d3.P) : (K3d3.det p) 2 = p.xd2 := by simp [K3d3.det]
-
-/-- what the constructor documents and enforces -/
-structure K3d2.Adm (p : K3d2.P) : Prop where
-  hR : 0 < p.R
-  hD : 0 < p.D
-  hdet : p.R < ‖K3d2.det p‖
-structure K3d3.Adm (p : K3d3.P) : Prop where
-  hR : 0 < p.R
-  hD : 0 < p.D
-  hdet : p.R < ‖K3d3.det p‖
-
-/-- the request is served exactly when the constructor's conditions hold and the point is in
-the explosive (outside or on the obstacle) -/
-theorem k3d2_outcome (p : K3d2.P) (q : E2) : K3d2.outcome p (q 0) (q 1) = .ok ↔ K3d2.Adm p ∧ p.R ≤ ‖q‖ := by
-  simp only [epv_tree, ite_raise_eq_ok, ite_self]
-  simp only [epv_cond, not_le, not_lt, and_true]
-  have e1 := sqrt_norm2 (K3d2.det p)
-  simp only [K3d2.det_0, K3d2.det_1] at e1
-  rw [e1, sqrt_norm2 q]
-  exact ⟨fun ⟨a, b, c, d⟩ => ⟨⟨a, b, c⟩, d⟩, fun ⟨⟨a, b, c⟩, d⟩ => ⟨a, b, c, d⟩⟩
-
-theorem k3d3_outcome (p : K3d3.P) (q : E3) :
-    K3d3.outcome p (q 0) (q 1) (q 2) = .ok ↔ K3d3.Adm p ∧ p.R ≤ ‖q‖ := by
-  simp only [epv_tree, ite_raise_eq_ok, ite_self]
-  simp only [epv_cond, not_le, not_lt, and_true]
-  have e1 := sqrt_norm3 (K3d3.det p)
-  simp only [K3d3.det_0, K3d3.det_1, K3d3.det_2] at e1
-  rw [e1, sqrt_norm3 q]
-  exact ⟨fun ⟨a, b, c, d⟩ => ⟨⟨a, b, c⟩, d⟩, fun ⟨⟨a, b, c⟩, d⟩ => ⟨a, b, c, d⟩⟩
-
-/-- the traced shadow test is the documented θ > 0 -/
-theorem k3d2_shadow_iff (p : K3d2.P) (q : E2) : K3d2.c4 p (q 0) (q 1) ↔ 0 < k3theta p.R (K3d2.det p) q := by
-  simp only [epv_cond]
-  unfold k3theta
-  rw [← sqrt_norm2 q, ← sqrt_norm2 (K3d2.det p), ← inner2 q (K3d2.det p)]
-  simp only [K3d2.det_0, K3d2.det_1, one_mul, div_one]
-
-theorem k3d3_shadow_iff (p : K3d3.P) (q : E3) :
-    K3d3.c4 p (q 0) (q 1) (q 2) ↔ 0 < k3theta p.R (K3d3.det p) q := by
-  simp only [epv_cond]
-  unfold k3theta
-  rw [← sqrt_norm3 q, ← sqrt_norm3 (K3d3.det p), ← inner3 q (K3d3.det p)]
-  simp only [K3d3.det_0, K3d3.det_1, K3d3.det_2, one_mul, div_one]
 
 /-! #### 2-D -/
-
-/-- the traced burn time is the documented solution wherever the request is served -/
-theorem k3d2_eq_spec (p : K3d2.P) (q : E2) (h : K3d2.outcome p (q 0) (q 1) = .ok) :
-    K3d2.burntime p (q 0) (q 1) = k3 p.R p.D p.t_d (K3d2.det p) q := by
-  simp only [epv_tree, ite_raise_eq_ok, ite_self] at h
-  obtain ⟨h0, h1, h2, h3, -⟩ := h
-  simp only [epv_tree, if_neg h0, if_neg h1, if_neg h2, if_neg h3]
-  unfold k3
-  by_cases hs : K3d2.c4 p (q 0) (q 1)
-  · rw [if_pos hs, if_pos ((k3d2_shadow_iff p q).mp hs)]
-    simp only [epv_leaf]
-    unfold k3path k3theta
-    rw [← sqrt_norm2 q, ← sqrt_norm2 (K3d2.det p), ← inner2 q (K3d2.det p)]
-    simp only [K3d2.det_0, K3d2.det_1, one_mul, div_one]
-  · rw [if_neg hs, if_neg (fun h' => hs ((k3d2_shadow_iff p q).mpr h'))]
-    simp only [epv_leaf]
-    unfold cone
-    rw [← sqrt_dist2 q (K3d2.det p)]
-    simp only [K3d2.det_0, K3d2.det_1]
-
-theorem k3d2_eq_spec' (p : K3d2.P) (h : K3d2.Adm p) (q : E2) (hq : p.R ≤ ‖q‖) :
-    K3d2.burntime p (q 0) (q 1) = k3 p.R p.D p.t_d (K3d2.det p) q :=
-  k3d2_eq_spec p q ((k3d2_outcome p q).mpr ⟨h, hq⟩)
 
 /-- never earlier than the detonation time -/
 theorem k3d2_ge (p : K3d2.P) (h : K3d2.Adm p) (q : E2) (hq : p.R ≤ ‖q‖) :
@@ -164,36 +87,16 @@ theorem k3d2_los (p : K3d2.P) (h : K3d2.Adm p) (q : E2) (hq : p.R ≤ ‖q‖)
     K3d2.burntime p (q 0) (q 1) = cone p.t_d p.D (K3d2.det p) q := by
   rw [k3d2_eq_spec' p h q hq]; unfold k3; rw [if_neg (not_lt.mpr hθ)]
 
-/-- two line-of-sight points differ in burn time by at most their distance over D -/
-theorem k3d2_lipschitz_los (p : K3d2.P) (h : K3d2.Adm p) (q q' : E2) (hq : p.R ≤ ‖q‖) (hq' : p.R ≤ ‖q'‖)
+/-- two line-of-sight points differ in burn time by at most their distance over D.
+PARTIAL: the property's bound for pairs of points joined by a straight path inside the explosive is
+proved here only when both points are in line of sight of the detonator (θ ≤ 0); pairs with a
+shadowed point are sampled by the oracle `o_burn.k3` (site `Kenamond3:lipschitz`). -/
+theorem k3d2_lipschitz_partial (p : K3d2.P) (h : K3d2.Adm p) (q q' : E2) (hq : p.R ≤ ‖q‖) (hq' : p.R ≤ ‖q'‖)
     (hθ : k3theta p.R (K3d2.det p) q ≤ 0) (hθ' : k3theta p.R (K3d2.det p) q' ≤ 0) :
     |K3d2.burntime p (q 0) (q 1) - K3d2.burntime p (q' 0) (q' 1)| ≤ dist q q' / p.D := by
   rw [k3d2_los p h q hq hθ, k3d2_los p h q' hq' hθ']; exact cone_lipschitz _ h.hD _ _ _
 
 /-! #### 3-D -/
-
-/-- the traced burn time is the documented solution wherever the request is served -/
-theorem k3d3_eq_spec (p : K3d3.P) (q : E3) (h : K3d3.outcome p (q 0) (q 1) (q 2) = .ok) :
-    K3d3.burntime p (q 0) (q 1) (q 2) = k3 p.R p.D p.t_d (K3d3.det p) q := by
-  simp only [epv_tree, ite_raise_eq_ok, ite_self] at h
-  obtain ⟨h0, h1, h2, h3, -⟩ := h
-  simp only [epv_tree, if_neg h0, if_neg h1, if_neg h2, if_neg h3]
-  unfold k3
-  by_cases hs : K3d3.c4 p (q 0) (q 1) (q 2)
-  · rw [if_pos hs, if_pos ((k3d3_shadow_iff p q).mp hs)]
-    simp only [epv_leaf]
-    unfold k3path k3theta
-    rw [← sqrt_norm3 q, ← sqrt_norm3 (K3d3.det p), ← inner3 q (K3d3.det p)]
-    simp only [K3d3.det_0, K3d3.det_1, K3d3.det_2, one_mul, div_one]
-  · rw [if_neg hs, if_neg (fun h' => hs ((k3d3_shadow_iff p q).mpr h'))]
-    simp only [epv_leaf]
-    unfold cone
-    rw [← sqrt_dist3 q (K3d3.det p)]
-    simp only [K3d3.det_0, K3d3.det_1, K3d3.det_2]
-
-theorem k3d3_eq_spec' (p : K3d3.P) (h : K3d3.Adm p) (q : E3) (hq : p.R ≤ ‖q‖) :
-    K3d3.burntime p (q 0) (q 1) (q 2) = k3 p.R p.D p.t_d (K3d3.det p) q :=
-  k3d3_eq_spec p q ((k3d3_outcome p q).mpr ⟨h, hq⟩)
 
 /-- never earlier than the detonation time -/
 theorem k3d3_ge (p : K3d3.P) (h : K3d3.Adm p) (q : E3) (hq : p.R ≤ ‖q‖) :
@@ -246,8 +149,11 @@ theorem k3d3_los (p : K3d3.P) (h : K3d3.Adm p) (q : E3) (hq : p.R ≤ ‖q‖)
     K3d3.burntime p (q 0) (q 1) (q 2) = cone p.t_d p.D (K3d3.det p) q := by
   rw [k3d3_eq_spec' p h q hq]; unfold k3; rw [if_neg (not_lt.mpr hθ)]
 
-/-- two line-of-sight points differ in burn time by at most their distance over D -/
-theorem k3d3_lipschitz_los (p : K3d3.P) (h : K3d3.Adm p) (q q' : E3) (hq : p.R ≤ ‖q‖) (hq' : p.R ≤ ‖q'‖)
+/-- two line-of-sight points differ in burn time by at most their distance over D.
+PARTIAL: the property's bound for pairs of points joined by a straight path inside the explosive is
+proved here only when both points are in line of sight of the detonator (θ ≤ 0); pairs with a
+shadowed point are sampled by the oracle `o_burn.k3` (site `Kenamond3:lipschitz`). -/
+theorem k3d3_lipschitz_partial (p : K3d3.P) (h : K3d3.Adm p) (q q' : E3) (hq : p.R ≤ ‖q‖) (hq' : p.R ≤ ‖q'‖)
     (hθ : k3theta p.R (K3d3.det p) q ≤ 0) (hθ' : k3theta p.R (K3d3.det p) q' ≤ 0) :
     |K3d3.burntime p (q 0) (q 1) (q 2) - K3d3.burntime p (q' 0) (q' 1) (q' 2)| ≤ dist q q' / p.D := by
   rw [k3d3_los p h q hq hθ, k3d3_los p h q' hq' hθ']; exact cone_lipschitz _ h.hD _ _ _
